@@ -89,6 +89,9 @@ var extraHook func(point string, a ...uint64)
 // SetExtraHook installs a hook for yield points other than the flush gate.
 func SetExtraHook(h func(point string, a ...uint64)) { extraHook = h }
 
+// ReleaseOneFlush lets exactly one gated flush proceed.
+func ReleaseOneFlush() { gate.tokens <- struct{}{} }
+
 // SetGated switches the flush gate on or off (off releases parked flushes).
 func SetGated(on bool) { setGated(on) }
 
